@@ -7,6 +7,8 @@ use serde_json::{json, Value};
 
 #[derive(Clone)]
 pub struct EncCase {
+    /// order in which the four builder setters are called (a permutation of 0..4)
+    pub order: [u8; 4],
     pub stratum: &'static str,
     pub input: Vec<u8>,
     pub modes: u8,
@@ -35,6 +37,7 @@ fn ascii_size(d: &[u8]) -> usize {
 
 pub struct CfgGen {
     pub sizes: Vec<SymbolSize>, // all 48, capacity order
+    #[allow(dead_code)]
     pub caps: Vec<usize>,
     pub default: Vec<SymbolSize>,
 }
@@ -158,7 +161,12 @@ fn push_cfgs(
                 -1
             };
         }
+        let mut order = [0u8, 1, 2, 3];
+        for i in (1..4).rev() {
+            order.swap(i, rng.below(i + 1));
+        }
         out.push(EncCase {
+            order,
             stratum,
             input: input.to_vec(),
             modes,
@@ -247,6 +255,18 @@ pub fn cases(tier: &str, seed: u64, focus: &str) -> Vec<EncCase> {
         push_cfgs(&mut out, &mut rng, &g, "long", &s, 1, focus);
     }
 
+    // (3b) Base256 runs around the one-/two-byte length field boundary (249/250) and the maximum (1555)
+    if focus != "C10" {
+        let lens: Vec<usize> = if thorough { vec![247, 248, 249, 250, 251, 252, 253, 1553, 1554, 1555, 1556] } else { vec![248, 249, 250, 251] };
+        for l in lens {
+            for tail in [&b""[..], b"1234567890123456789012345678901234567890", b"ABCDEFGHIJKLMNOP", b"a"] {
+                let mut s = class_string(&mut rng, Class::High, l);
+                s.extend_from_slice(tail);
+                push_cfgs(&mut out, &mut rng, &g, "b256len", &s, 2, focus);
+            }
+        }
+    }
+
     // (4) envelope strings
     let mut bodies: Vec<Vec<u8>> = vec![vec![], b"A".to_vec(), b"12".to_vec(), b"ABC123".to_vec()];
     for s in all_strings(&SIGMA12, 2) {
@@ -282,11 +302,15 @@ pub fn run_case(idx: usize, c: &EncCase, profile: &str) -> Value {
     let list = SymbolList::with_whitelist(c.list.iter().copied());
     let list_names = list_json(&list);
     let caps: Vec<usize> = list.iter().map(capacity_of).collect();
-    let builder = DataMatrixBuilder::new()
-        .with_encodation_types(modes_from_mask(c.modes))
-        .with_symbol_list(list.clone())
-        .with_macros(c.macros)
-        .with_fnc1_start(c.fnc1);
+    let mut builder = DataMatrixBuilder::new();
+    for o in c.order {
+        builder = match o {
+            0 => builder.with_encodation_types(modes_from_mask(c.modes)),
+            1 => builder.with_symbol_list(list.clone()),
+            2 => builder.with_macros(c.macros),
+            _ => builder.with_fnc1_start(c.fnc1),
+        };
+    }
     let input = c.input.clone();
     let eci = c.eci;
     let r = guarded(move || {
@@ -335,7 +359,7 @@ pub fn run_case(idx: usize, c: &EncCase, profile: &str) -> Value {
         Outcome::Panic(l, m) => panic_json(&l, &m),
     };
     events.push(json!({"ev": "Plan", "res": pres}));
-    json!({"id": idx, "fam": "enc", "stratum": c.stratum, "profile": profile,
+    json!({"id": idx, "fam": "enc", "stratum": c.stratum, "profile": profile, "order": c.order,
            "input": bytes_json(&c.input), "modes": c.modes, "list": list_names, "caps": caps,
            "macro": c.macros, "fnc1": c.fnc1, "eci": c.eci, "events": events})
 }
